@@ -220,10 +220,12 @@ Qed.
 Lemma length_concat_le4 (cd : list N) : length (concat (map (le 4) cd)) = (4 * length cd)%nat.
 Proof. induction cd; cbn [map concat length]; auto. rewrite app_length, length_le, IHcd. lia. Qed.
 
-Lemma parse_filters_step d k D :
+(* for both variants of the version 2 filter name switch: in the version 1 layout, which the writer uses, every filter has a
+   name-length field in either *)
+Lemma parse_filters_step rep d k D :
   desc_wf d ->
-  parse_filters (S k) true 2 (encode_filter d ++ D)
-  = bind (parse_filters k true 2 D) (fun rest => Ok (d :: rest)).
+  parse_filters_gen rep (S k) true 2 (encode_filter d ++ D)
+  = bind (parse_filters_gen rep k true 2 D) (fun rest => Ok (d :: rest)).
 Proof.
   intros (Hid & Hfl & Hnl & Hnlen & Hnz & Hncd & Hcdlen & Hcd).
   destruct d as [id nl flags ncd name cd]. cbn [fid fnamelen fflags fncd fname fcd] in *.
@@ -236,7 +238,7 @@ Proof.
   set (namepart := if 0 <? NL then name ++ repeat 0 (N.to_nat padded - length name) else []).
   set (cdpart := concat (map (le 4) cd)).
   rewrite <- !app_assoc.
-  cbn [parse_filters].
+  cbn [parse_filters_gen orb].
   replace (length (le 2 id ++ le 2 NL ++ le 2 flags ++ le 2 NCD ++ namepart ++ cdpart ++ D) <? 8)%nat with false.
   2:{ symmetry. apply Nat.ltb_ge. rewrite !app_length, !length_le. lia. }
   repeat (rewrite firstn_le_app || rewrite skipn_le_app).
@@ -286,8 +288,8 @@ Proof.
     reflexivity.
 Qed.
 
-Lemma parse_filters_encoded : forall ds,
-  Forall desc_wf ds -> parse_filters (length ds) true 2 (concat (map encode_filter ds)) = Ok ds.
+Lemma parse_filters_encoded rep : forall ds,
+  Forall desc_wf ds -> parse_filters_gen rep (length ds) true 2 (concat (map encode_filter ds)) = Ok ds.
 Proof.
   induction ds as [|d ds IH]; intro H; [reflexivity|].
   inversion H as [|? ? Hd Hds]; subst.
@@ -295,13 +297,13 @@ Proof.
   rewrite IH by exact Hds. reflexivity.
 Qed.
 
-Theorem msg_roundtrip_wf ds :
+Theorem msg_roundtrip_wf_gen rep ds :
   Forall desc_wf ds -> (0 < length ds < 256)%nat ->
-  bind (encode_msg ds) parse_msg = Ok (2, N.of_nat (length ds), ds).
+  bind (encode_msg ds) (parse_msg_gen rep) = Ok (2, N.of_nat (length ds), ds).
 Proof.
   intros Hwf Hlen. unfold encode_msg.
   destruct ds as [|d0 ds0] eqn:E; [cbn [length] in Hlen; lia|]. rewrite <- E in *. clear E d0 ds0.
-  cbn [bind app parse_msg].
+  cbn [bind app parse_msg_gen].
   assert (W : wrap8 (N.of_nat (length ds)) = N.of_nat (length ds)) by (unfold wrap8; lia).
   rewrite W.
   cbn [N.ltb N.compare Pos.compare Pos.compare_cont orb N.eqb Pos.eqb andb].
@@ -310,6 +312,11 @@ Proof.
   rewrite Nat2N.id.
   rewrite parse_filters_encoded by exact Hwf. reflexivity.
 Qed.
+
+Theorem msg_roundtrip_wf ds :
+  Forall desc_wf ds -> (0 < length ds < 256)%nat ->
+  bind (encode_msg ds) parse_msg = Ok (2, N.of_nat (length ds), ds).
+Proof. apply msg_roundtrip_wf_gen. Qed.
 
 (* the writer's own filters always give well-formed descriptors *)
 
@@ -321,16 +328,21 @@ Proof.
   unfold norm_level. destruct ((1 <=? l) && (l <=? 9)) eqn:E; lia.
 Qed.
 
-Theorem msg_roundtrip fs :
+Theorem msg_roundtrip_gen rep fs :
   Forall filter_wf fs -> (0 < length fs < 256)%nat ->
-  bind (encode_msg (descr fs)) parse_msg = Ok (2, N.of_nat (length fs), descr fs).
+  bind (encode_msg (descr fs)) (parse_msg_gen rep) = Ok (2, N.of_nat (length fs), descr fs).
 Proof.
   intros Hwf Hlen.
   replace (length fs) with (length (descr fs)) by (unfold descr; apply map_length).
-  apply msg_roundtrip_wf.
+  apply msg_roundtrip_wf_gen.
   - unfold descr. apply Forall_map. eapply Forall_impl; [|exact Hwf]. apply descr1_wf.
   - unfold descr. rewrite map_length. exact Hlen.
 Qed.
+
+Theorem msg_roundtrip fs :
+  Forall filter_wf fs -> (0 < length fs < 256)%nat ->
+  bind (encode_msg (descr fs)) parse_msg = Ok (2, N.of_nat (length fs), descr fs).
+Proof. apply msg_roundtrip_gen. Qed.
 
 (* ---------------------------------------------------------------- Fletcher-32 NOT outermost: refuted
    A checksum only protects the bytes it is computed over.  With an LZF stage applied after it, one
